@@ -37,6 +37,9 @@ THEOREMS = {
                               "dev_scales_inv_sqrt_n", "phase_ge_mag", "phase_le_half_pi_mag", "auto_dev_uses_unit_coherence"],
     "SpecKitV.Lemmas.Arcsin": ["le_arcsin_of_nonneg", "arcsin_le_half_pi_mul", "arcsin_div_self_tendsto_one", "magErr_le_radErr",
                                "radErr_le_half_pi_magErr", "radErr_div_magErr_tendsto_one", "radErr_one", "magErr_one"],
+    # statistical meaning of the generated Gxx_dev / Gxx_error under the standard model (K pairwise independent periodogram values, mean mu, variance mu^2)
+    "SpecKitV.Props.StatModel": ["mean_estimator_unbiased", "mean_estimator_variance", "Gxx_dev_is_sd_at_truth", "Gxx_error_is_relative_sd",
+                                 "periodogram_exp_law_cv_one", "StatModel.hypotheses_satisfiable"],
 }
 CONTRACTS = ["np.arcsin / np.sqrt / np.rad2deg are the real functions arcsin, sqrt, x*180/pi up to rounding"]
 ASSUMPTIONS = ["theorems are over the reals for the Lean translation of SpectrumResult.__getattr__ (the `_dev`/`_error` branch), for all 0 < g <= 1, n >= 1, "
